@@ -756,7 +756,9 @@ func (d *DNS) SerializeTo(b gopacket.SerializeBuffer, opts gopacket.SerializeOpt
 	}
 	binary.BigEndian.PutUint16(bytes, d.ID)
 	bytes[2] = byte((b2i(d.QR) << 7) | (int(d.OpCode) << 3) | (b2i(d.AA) << 2) | (b2i(d.TC) << 1) | b2i(d.RD))
-	bytes[3] = byte((b2i(d.RA) << 7) | (int(d.Z) << 4) | int(d.ResponseCode))
+	// only the lower four bits of the response code live in the header; the
+	// upper bits of an extended RCODE belong to the OPT record's TTL (RFC 6891)
+	bytes[3] = byte((b2i(d.RA) << 7) | (int(d.Z) << 4) | int(d.ResponseCode&0xF))
 
 	if opts.FixLengths {
 		d.QDCount = uint16(len(d.Questions))
